@@ -1,7 +1,6 @@
 (* Props/C10.v — Every update outcome is reported to Omaha exactly once.
    The main theorem is C10_report_monitor_accepts_every_model_trace (below).  Session and request ids of the reports
-   (same session as the check, fresh request id) are checked on every implementation trace by the run-time monitor
-   step6ids and compared by trace equality; they are not part of the proved monitor. *)
+   (same session as the check, fresh request id) are the subject of C10_reports_stay_in_the_session_with_fresh_request_ids (end of file). *)
 Require Import Verif.Model.Time Verif.Base.Bytes Verif.Model.Version Verif.Model.Proto Verif.Model.Request Verif.Model.Env Verif.Model.SM Verif.Proofs.SMPure.
 Open Scope Z_scope.
 
@@ -106,3 +105,12 @@ End Examples.
 
 Print Assumptions C10_report_monitor_accepts_every_model_trace.
 Print Assumptions C10_report_ok_meaning.
+
+(* ---- session and request ids of the reports: every request of a check, event reports included, carries the session id
+   of the check's first request, and no request id ever appears twice (Model/Monitors.v step6ids) ---- *)
+Require Import Verif.Proofs.C06idsProof.
+Theorem C10_reports_stay_in_the_session_with_fresh_request_ids :
+  forall ep cfg url cup apps e, e_trace e = [] -> e_guids e = [] ->
+    accepts step6ids {| i_in := false; i_sess := None; i_reqs := [] |} (run_case ep cfg url cup apps e) = true.
+Proof. exact model_accepted_ids. Qed.
+Print Assumptions C10_reports_stay_in_the_session_with_fresh_request_ids.
